@@ -150,3 +150,39 @@ Example C01_exact_on_span_hypothesis_satisfiable :
   exists X : nat -> nat -> R, forall j k, (j < 1)%nat -> (k < 1)%nat ->
     sumn 1 (fun i => daun_p0 (Z.of_nat j) (Z.of_nat i) * X i k) = delta j k.
 Proof. exact left_inverse_exists_n1. Qed.
+
+(* ---- stretch 2: inverse error bound, conditional on the size of the inverse
+   (proofs/Convergence.v) --------------------------------------------------------
+   For every n, every L-Lipschitz profile f vanishing beyond the last cell and
+   every left inverse X of the degree-0 matrix (resp. D = inv(W) of onion
+   peeling): the reconstruction from the EXACT projection of f misses the samples
+   f(k) by at most  L * n * (1-norm of the column of X / row of D)  in pixel units.
+   `_partial`: the bound is a stability estimate, it does not by itself give
+   convergence (the growth of that norm with n is the ill-posedness of the Abel
+   inversion and is not bounded here); the envelope of the inverse methods stays
+   swept.  lipschitz_nonneg f L : |f r - f s| <= L |r - s| for r, s >= 0. *)
+From PA Require Import proofs.Convergence.
+
+Theorem C01_inverse_daun0_error_partial : forall (n : nat) (f : R -> R) (L : R) (X : nat -> nat -> R),
+  0 <= L -> lipschitz_nonneg f L -> (forall s, zc n - 1 / 2 <= s -> f s = 0) ->
+  (forall j k, (j < n)%nat -> (k < n)%nat ->
+     sumn n (fun i => daun_p0 (Z.of_nat j) (Z.of_nat i) * X i k) = delta j k) ->
+  forall k, (k < n)%nat ->
+    Rabs (sumn n (fun i => Abel f (zc n) (zc i) * X i k) - f (zc k))
+      <= L * zc n * sumn n (fun i => Rabs (X i k)).
+Proof. exact inverse_daun0_error_partial. Qed.
+Print Assumptions C01_inverse_daun0_error_partial.
+
+Theorem C01_inverse_onion_peeling_error_partial : forall (n : nat) (f : R -> R) (L : R) (D : nat -> nat -> R),
+  0 <= L -> lipschitz_nonneg f L -> (forall s, zc n - 1 / 2 <= s -> f s = 0) ->
+  (forall k j, (k < n)%nat -> (j < n)%nat ->
+     sumn n (fun i => D k i * onion_W (Z.of_nat n) (Z.of_nat i) (Z.of_nat j)) = delta j k) ->
+  forall k, (k < n)%nat ->
+    Rabs (sumn n (fun i => D k i * Abel f (zc n) (zc i)) - f (zc k))
+      <= L * zc n * sumn n (fun i => Rabs (D k i)).
+Proof. exact inverse_onion_peeling_error_partial. Qed.
+Print Assumptions C01_inverse_onion_peeling_error_partial.
+
+Example C01_lipschitz_hypotheses_satisfiable :
+  lipschitz_nonneg tent 1 /\ (forall s, zc 2 - 1 / 2 <= s -> tent s = 0).
+Proof. exact (conj tent_lipschitz tent_support). Qed.
